@@ -48,7 +48,21 @@ fn query(rng: &mut Rng) -> String {
     let mut q = format!("SELECT {} FROM t", items.join(", "));
     if rng.chance(1, 3) { q.push_str(&format!(" WHERE {}", rng.pick(&["v > 0", "w != 0", "k != 'c'", "r > 1.0"]))); }
     if !group.is_empty() { q.push_str(&format!(" GROUP BY {}", group.join(", "))); }
-    if rng.chance(1, 4) { q.push_str(&format!(" HAVING {} {} {}", rng.pick(&["COUNT(*)", "SUM(v)", "MAX(w)", "MIN(v)"]), rng.pick(&[">", ">=", "<"]), rng.pick(&["0", "1", "2"]))); }
+    if rng.chance(1, 3) {
+        // boolean combinations, with the same aggregate used more than once (range conditions, alternatives)
+        let aggs = ["COUNT(*)", "SUM(v)", "MAX(w)", "MIN(v)", "COUNT(v)", "COUNT(DISTINCT k)"];
+        let a = *rng.pick(&aggs);
+        let b = *rng.pick(&aggs);
+        let cmp = |rng: &mut Rng, x: &str| format!("{} {} {}", x, rng.pick(&[">", ">=", "<", "<=", "="]), rng.pick(&["0", "1", "2", "3", "5"]));
+        let h = match rng.below(6) {
+            0 | 1 => cmp(rng, a),
+            2 => { let lo = rng.below(3); format!("{} >= {} AND {} <= {}", a, lo, a, lo + 1 + rng.below(3)) }
+            3 => format!("{} AND {}", cmp(rng, a), cmp(rng, b)),
+            4 => format!("{} OR {}", cmp(rng, a), cmp(rng, a)),
+            _ => format!("NOT ({}) AND {}", cmp(rng, a), cmp(rng, b)),
+        };
+        q.push_str(&format!(" HAVING {}", h));
+    }
     q
 }
 
